@@ -4,7 +4,7 @@ from wallet_common import *
 
 MANIFEST_ENTRY = dict(
     cat="model_checking", ref="DESIGN.md 4 C16", engine="wallet-tla",
-    text="TLC explores histories that end in restore-from-seed and scans (with and without delete_unconfirmed) of wallets whose records diverged from the chain - injected divergences (record deleted, Unspent marked Spent, Spent marked Unspent, locked), cancel after broadcast, a reorganisation - and checks ScanEqualsTruth, RestoredExact, ScanIdempotent on the model; on the real code (real range-proof rewinding over a real chain) TLC compares the scanned wallet's records with the REAL chain's unspent set for the seed (value, height, coinbase flag, maturity, account, next child index beyond every path found) and checks that an immediately repeated scan changes nothing.",
+    text="TLC explores histories that end in restore-from-seed and scans (with and without delete_unconfirmed) of wallets whose records diverged from the chain - injected divergences (record deleted, Unspent marked Spent, Spent marked Unspent, locked), cancel after broadcast, a reorganisation - and checks ScanEqualsTruth, RestoredExact, ScanIdempotent on the model; on the real code (real range-proof rewinding over a real chain) TLC compares the scanned wallet's records with the REAL chain's unspent set for the seed (value, height, coinbase flag, maturity, account, next child index beyond every path found) and checks that an immediately repeated scan changes nothing; directed behaviours add a restore whose last chain output is not the one with the highest key index and a wallet that never looked at the chain answering a payment that is abandoned; a view wallet (rewind hash) looking at the chain is woven in as a conformance step.",
     technique="TLC model checking of spec/MCWallet.tla (Fork/Restore/Scan/Diverge actions) + TLC-generated behaviours replayed on the real code and chain + TLC trace validation (spec/TraceWallet.tla) against the real chain's UTXO set",
     note=WALLET_NOTE)
 
